@@ -6,7 +6,7 @@
 From Coq Require Import ZArith List Bool Permutation.
 From Batchie Require Import Lib.Sexp Model.Encode Model.Screen Model.Retro Model.Pairwise Model.RetroHoldout
   Model.RetroInit Proofs.C11Lib Proofs.C11Gen Proofs.C11Smooth Proofs.C11Select Proofs.C11Holdout Proofs.C11Init
-  Generated.SrcRetro Proofs.C11Source.
+  Generated.SrcRetro Proofs.C11Source Proofs.C13SampleSeg Proofs.C13SparseTerm Generated.SrcRetroGen Proofs.C13Source Proofs.C13SourcePairwise.
 Import ListNotations.
 
 (* ---- the models are what the source says NOW ----
@@ -74,6 +74,99 @@ Theorem C11_model_is_source_create_plate_balanced_holdout_set_among_masked_plate
   src_balanced_holdout num den counts rows ds = holdout_balanced num den counts rows ds.
 Proof. exact src_balanced_holdout_is_model. Qed.
 Print Assumptions C11_model_is_source_create_plate_balanced_holdout_set_among_masked_plates.
+
+(* create_random_holdout (retrospective.py): the range check and its raise, the all-false selection vector, the single
+   rng.choice of math.ceil(screen.size * fraction) of all row numbers, selection_vector[indices] = True, the two Screen(...)
+   calls, the returned pair - equal to [holdout_random] (the subject of C11_random_holdout_partition) for every fraction
+   num/den, count mode, screen and answer stream *)
+Theorem C11_model_is_source_create_random_holdout : forall num den count rows ds,
+  src_random_holdout num den count rows ds = holdout_random num den count rows ds.
+Proof. exact src_random_holdout_is_model. Qed.
+Print Assumptions C11_model_is_source_create_random_holdout.
+
+(* the shipped generators and smoothers, the initial plate and the combination filter - the subjects of
+   C11_generator_conserves, C11_smoother_sub, C11_size_smoothers_keep_rows, C11_initial_plate_conserves, C11_filter_sub:
+   the same links as in Props/C13.v (see the comments there; Generated/SrcRetroGen.v, proofs in Proofs/C13Source.v) *)
+Theorem C11_model_is_source_sample_segregating_generate_plates : forall mx rows ds, (0 <= mx)%Z ->
+  src_sample_seg_generate_plates mx rows ds = sample_seg_checked mx rows ds /\
+  (ss_contract mx rows (sample_names rows) ds -> src_sample_seg_generate_plates mx rows ds = sample_seg true mx rows ds) /\
+  (ss_contract mx (unobserved rows) (sample_names (unobserved rows)) ds ->
+   src_generate_plates (src_sample_seg_generate_plates mx) rows ds = generate_plates (GSampleSeg true mx) rows ds).
+Proof. exact link_sample_segregating_generate_plates. Qed.
+Print Assumptions C11_model_is_source_sample_segregating_generate_plates.
+
+Theorem C11_model_is_source_sample_segregating_generate_plates_negative_max : forall mx rows ds, (mx < 0)%Z ->
+  match sample_seg true mx rows ds with
+  | Ok r => src_sample_seg_generate_plates mx rows ds = Ok r
+  | Err _ => exists t, src_sample_seg_generate_plates mx rows ds = Err t
+  end.
+Proof. exact src_sample_seg_negative_max. Qed.
+Print Assumptions C11_model_is_source_sample_segregating_generate_plates_negative_max.
+
+Theorem C11_model_is_source_plate_permutation_generate_plates : forall force rows ds,
+  src_plate_permutation_generate_plates force rows ds = plate_perm (match force with Some l => l | None => [] end) rows ds /\
+  src_generate_plates (src_plate_permutation_generate_plates force) rows ds
+  = generate_plates (GPerm (match force with Some l => l | None => [] end)) rows ds.
+Proof. exact link_plate_permutation_generate_plates. Qed.
+Print Assumptions C11_model_is_source_plate_permutation_generate_plates.
+
+Theorem C11_model_is_source_fixed_size_smooth_plates : forall t rows ds,
+  src_fixed_size_smooth_plates t rows ds = size_smooth t rows ds /\
+  src_smooth_plates (src_fixed_size_smooth_plates t) rows ds = smooth_plates (SFixed t) rows ds.
+Proof. exact link_fixed_size_smooth_plates. Qed.
+Print Assumptions C11_model_is_source_fixed_size_smooth_plates.
+
+Theorem C11_model_is_source_optimal_size_smooth_plates : forall rows ds,
+  src_optimal_size_smooth_plates rows ds = optimal_smooth rows ds /\
+  src_smooth_plates src_optimal_size_smooth_plates rows ds = smooth_plates SOptimal rows ds.
+Proof. exact link_optimal_size_smooth_plates. Qed.
+Print Assumptions C11_model_is_source_optimal_size_smooth_plates.
+
+Theorem C11_model_is_source_nplate_smooth_plates : forall m rows ds,
+  (forall p, src_nplate_get_plate_sample_id rows (plate_vec p rows) = dor nm <- plate_sample p rows; Ok (sample_id_z rows nm)) /\
+  src_nplate_smooth_plates m rows = nplate true m rows /\
+  src_smooth_plates (fun s d => dor r <- src_nplate_smooth_plates m s; Ok (r, d)) rows ds = smooth_plates (SNPlate true m) rows ds.
+Proof. exact link_nplate_smooth_plates. Qed.
+Print Assumptions C11_model_is_source_nplate_smooth_plates.
+
+Theorem C11_model_is_source_ensemble_smooth_plates : forall ms n m rows ds fuel, length rows < fuel ->
+  src_ensemble_smooth_plates ms n m rows ds fuel = ensemble true ms n m rows ds /\
+  src_smooth_plates (fun s d => src_ensemble_smooth_plates ms n m s d fuel) rows ds = smooth_plates (SEnsemble true ms n m) rows ds.
+Proof. exact link_ensemble_smooth_plates. Qed.
+Print Assumptions C11_model_is_source_ensemble_smooth_plates.
+
+Theorem C11_model_is_source_sparse_cover_generate_and_unmask_initial_plate : forall ctrl reveal rows ds fuel,
+  length ds < fuel \/ ndistinct (all_tids ctrl rows) < fuel ->
+  (forall f : initial_inner,
+     src_generate_and_unmask_initial_plate f rows ds = if negb (forallb r_mask rows) then Err 8%Z else f rows ds) /\
+  src_sparse_cover ctrl reveal rows ds fuel = sparse_cover_inner ctrl reveal rows ds /\
+  src_generate_and_unmask_initial_plate (fun s d => src_sparse_cover ctrl reveal s d fuel) rows ds = sparse_cover ctrl reveal rows ds.
+Proof. exact link_sparse_cover_generate_and_unmask_initial_plate. Qed.
+Print Assumptions C11_model_is_source_sparse_cover_generate_and_unmask_initial_plate.
+
+Theorem C11_model_is_source_sparse_cover_terminates : forall ctrl reveal rows ds,
+  forallb r_mask rows = true ->
+  sc_contract ctrl rows (sample_names rows) [] ds ->
+  length (sample_names rows) + ndistinct (all_tids ctrl rows) <= length ds ->
+  exists out ds',
+    src_generate_and_unmask_initial_plate
+      (fun s d => src_sparse_cover ctrl reveal s d (S (ndistinct (all_tids ctrl rows)))) rows ds = Ok (out, ds').
+Proof. exact src_sparse_cover_terminates. Qed.
+Print Assumptions C11_model_is_source_sparse_cover_terminates.
+
+Theorem C11_model_is_source_filter_dataset_to_treatments_that_appear_in_at_least_one_combo : forall ctrl arity rows,
+  src_combo_filter ctrl arity rows = combo_filter ctrl arity rows.
+Proof. exact src_combo_filter_is_model. Qed.
+Print Assumptions C11_model_is_source_filter_dataset_to_treatments_that_appear_in_at_least_one_combo.
+
+Theorem C11_model_is_source_pairwise_generate_plates : forall ctrl subset anchor rows ds,
+  (argsort_ok anchor (length (unique_ids ctrl (filter (is_combo ctrl) rows))) ds ->
+   src_pairwise_generate_plates ctrl subset anchor rows ds = pairwise ctrl subset anchor rows ds) /\
+  (argsort_ok anchor (length (unique_ids ctrl (filter (is_combo ctrl) (unobserved rows)))) ds ->
+   src_generate_plates (src_pairwise_generate_plates ctrl subset anchor) rows ds
+   = generate_plates (GPairwise ctrl subset anchor) rows ds).
+Proof. exact link_pairwise_generate_plates. Qed.
+Print Assumptions C11_model_is_source_pairwise_generate_plates.
 
 (* every shipped generator (PlatePermutation, SampleSegregating in both variants, Pairwise), every
    oracle answer: the output is new ++ (observed input rows, unchanged, still observed), the new rows
